@@ -1,13 +1,17 @@
 // C09 — static_set / flat_set / flat_multiset stay sorted + unique and answer like std::set.
 // Engines: E2 (every reachable set x every concrete op; all histories of depth 4/5 over a concrete alphabet;
 //          every container of <= 4 keys for flat_multiset) and E1 (rapidcheck histories, shrinking).
-// Oracle : std::set<int, Comp> (std::multiset for flat_multiset) driven in lock-step by the same decoded ops.
+// Oracle : std::set<int, Cmp> (std::multiset for flat_multiset) driven in lock-step by the same decoded ops.  The
+//          oracle's comparator is one run-time-direction functor (ascending for less<int>/less<>, descending for
+//          greater<int>/greater<>): for int keys it orders exactly like the std functor of the same name, and it keeps
+//          all oracle-side code out of the per-configuration templates (compile time).
 //
-// One source, three translation units (registry passes -DC09_PART=0|1|2 so they compile in parallel):
-//   PART 0  static_set<int,N,Comp>                       N in {1,3,4}, Comp in {less<int>, greater<int>, less<>} (+ greater<> N=3)
-//   PART 1  flat_set<int, static_vector<int,N>, Comp>    same grid
-//   PART 2  flat_set over an inplace_vector-backed adapter, flat_set with a *stateful* comparator (two directions, so
-//           that swap / copy / move must carry the comparator along), flat_multiset construction
+// One source, eight translation units (registry passes -DC09_PART=0..7 so they compile in parallel):
+//   PART 0-2  static_set<int,N,Comp>                     N in {1,3,4}, Comp = less<int> | greater<int> | less<> (+ greater<> N=3)
+//   PART 3-5  flat_set<int, static_vector<int,N>, Comp>  same grid
+//   PART 6    flat_set over an inplace_vector-backed adapter
+//   PART 7    flat_set with a *stateful* comparator (two directions, so that swap / copy / move must carry the
+//             comparator along); flat_multiset construction from every container of <= 4 keys
 //
 // What is NOT part of the check on this tree (does not compile / declared but never defined / absent):
 //   static_set::equal_range (returns `iterator`, body returns a pair: hard error when instantiated), static_set insert
@@ -31,6 +35,7 @@
 #include "iterators.hpp"
 
 #include <algorithm>
+#include <cstdarg>
 #include <iterator>
 #include <set>
 #include <vector>
@@ -45,49 +50,27 @@ using vf::OpsCase;
 using vf::RawOp;
 
 constexpr int universe = 6; // keys 0..5
+constexpr int nkeys    = 8; // lookups are asked for -1..6
 
-// ------------------------------------------------------------------ heterogeneous key (no conversion to int)
-struct HKey {
-    int v;
-};
-constexpr auto operator<(int a, HKey b) -> bool { return a < b.v; }
-constexpr auto operator<(HKey a, int b) -> bool { return a.v < b; }
-constexpr auto operator>(int a, HKey b) -> bool { return a > b.v; }
-constexpr auto operator>(HKey a, int b) -> bool { return a.v > b; }
-
-// ------------------------------------------------------------------ stateful comparator (direction is run-time state)
+// ------------------------------------------------------------------ comparators
+// run-time direction: the oracle's comparator for every configuration, and the *stateful* comparator of PART 12
 struct DirComp {
     bool desc{false};
     constexpr auto operator()(int a, int b) const -> bool { return desc ? b < a : a < b; }
 };
+using Model = std::set<int, DirComp>;
 
 template <typename C>
-struct StdComp;
+inline constexpr bool descending_v = false;
 template <>
-struct StdComp<etl::less<int>> {
-    using type = std::less<int>;
-};
+inline constexpr bool descending_v<etl::greater<int>> = true;
 template <>
-struct StdComp<etl::greater<int>> {
-    using type = std::greater<int>;
-};
-template <>
-struct StdComp<etl::less<>> {
-    using type = std::less<>;
-};
-template <>
-struct StdComp<etl::greater<>> {
-    using type = std::greater<>;
-};
-template <>
-struct StdComp<DirComp> {
-    using type = DirComp;
-};
+inline constexpr bool descending_v<etl::greater<>> = true;
 
 // ------------------------------------------------------------------ inplace_vector-backed sequence container
-// etl::inplace_vector has no insert / erase; flat_set needs emplace(pos, x), erase, clear and the iterator accessors.
-// This adapter supplies exactly those on top of etl::inplace_vector (value-initialised, see DESIGN §6 row C02/C03).
-bool g_adapter_overflow = false; // latched: the harness asked the adapter for more than N elements (generator bug)
+// etl::inplace_vector has no insert / erase / assignment; flat_set needs emplace(pos, x), erase, clear, the iterator
+// accessors and assignability.  This adapter supplies exactly those on top of etl::inplace_vector.
+bool g_adapter_overflow = false; // latched: the adapter was asked for more than N elements
 
 template <typename T, std::size_t Cap>
 struct IVec {
@@ -108,6 +91,30 @@ struct IVec {
     IVec(It first, It last)
     {
         for (; first != last; ++first) { push_back(*first); }
+    }
+    IVec(IVec const& o) { assign(o); }
+    IVec(IVec&& o) noexcept
+    {
+        assign(o);
+        o.clear();
+    }
+    auto operator=(IVec const& o) -> IVec&
+    {
+        if (this != &o) { assign(o); }
+        return *this;
+    }
+    auto operator=(IVec&& o) noexcept -> IVec&
+    {
+        if (this != &o) {
+            assign(o);
+            o.clear();
+        }
+        return *this;
+    }
+    auto assign(IVec const& o) -> void
+    {
+        s.clear();
+        for (auto const& v : o) { push_back(v); }
     }
 
     [[nodiscard]] auto begin() noexcept -> iterator { return s.data(); }
@@ -154,8 +161,18 @@ struct IVec {
     auto clear() noexcept -> void { s.clear(); }
 };
 
-// ------------------------------------------------------------------ helpers
-inline auto pick(std::uint32_t raw, std::size_t room) -> std::size_t
+// ------------------------------------------------------------------ non-template helpers (kept out of the templates on purpose)
+__attribute__((noinline, format(printf, 1, 2))) auto fmt(char const* f, ...) -> std::string
+{
+    char buf[768];
+    va_list ap;
+    va_start(ap, f);
+    std::vsnprintf(buf, sizeof buf, f, ap);
+    va_end(ap);
+    return buf;
+}
+
+auto pick(std::uint32_t raw, std::size_t room) -> std::size_t
 {
     switch (raw % 8) {
     case 0: return 0;
@@ -167,34 +184,71 @@ inline auto pick(std::uint32_t raw, std::size_t room) -> std::size_t
 }
 
 // offset of an iterator (all iterators here are pointers) or a deterministic sentinel when it is not inside [b,e]
-template <typename It>
-inline auto off(It b, It e, It it) -> long
+auto off_impl(int const* b, int const* e, int const* it) -> long
 {
-    if (it == nullptr) { return -1000; } // null iterator
+    if (it == nullptr) { return -1000; }                               // null iterator
     if (std::less<>{}(it, b) || std::less<>{}(e, it)) { return -999; } // outside the container
     return static_cast<long>(it - b);
 }
-inline auto show_off(long o) -> std::string
+template <typename It>
+inline auto off(It b, It e, It it) -> long
+{
+    return off_impl(b, e, it);
+}
+auto show_off(long o) -> std::string
 {
     if (o == -1000) { return "null"; }
     if (o == -999) { return "outside [begin,end]"; }
     return std::to_string(o);
 }
-template <typename Seq>
-inline auto show_seq(Seq const& s) -> std::string
+
+struct KeySeq { // a short key sequence without the heap
+    int v[9]{};
+    std::size_t n{0};
+    bool overflow{false};
+    auto push(int q) -> void
+    {
+        if (n < 9) {
+            v[n++] = q;
+        } else {
+            overflow = true;
+        }
+    }
+    [[nodiscard]] auto begin() const -> int const* { return v; }
+    [[nodiscard]] auto end() const -> int const* { return v + n; }
+};
+auto operator==(KeySeq const& a, KeySeq const& b) -> bool { return a.n == b.n && !a.overflow && !b.overflow && std::equal(a.begin(), a.end(), b.begin()); }
+auto show_seq(KeySeq const& s) -> std::string
 {
     std::string o = "[";
-    bool first    = true;
-    for (auto v : s) {
-        if (!first) { o += ' '; }
-        first = false;
-        o += std::to_string(v);
+    for (std::size_t i = 0; i < s.n; ++i) {
+        if (i != 0) { o += ' '; }
+        o += std::to_string(s.v[i]);
     }
+    if (s.overflow) { o += " ..."; }
     return o + "]";
+}
+auto seq_of(std::vector<int> const& v) -> KeySeq
+{
+    KeySeq s;
+    for (auto q : v) { s.push(q); }
+    return s;
+}
+auto seq_of(Model const& m) -> KeySeq
+{
+    KeySeq s;
+    for (auto q : m) { s.push(q); }
+    return s;
+}
+auto reversed(KeySeq const& s) -> KeySeq
+{
+    KeySeq r;
+    for (std::size_t i = s.n; i > 0; --i) { r.push(s.v[i - 1]); }
+    return r;
 }
 
 // keys of a range-style op: digit i of `a` in base 6, shifted by i*stride
-inline auto range_keys(std::uint32_t a, std::uint32_t stride, std::size_t len) -> std::vector<int>
+auto range_keys(std::uint32_t a, std::uint32_t stride, std::size_t len) -> std::vector<int>
 {
     std::vector<int> k;
     auto d = a % 1296U;
@@ -204,6 +258,29 @@ inline auto range_keys(std::uint32_t a, std::uint32_t stride, std::size_t len) -
     }
     return k;
 }
+auto mask_keys(std::uint32_t mask) -> std::vector<int>
+{
+    std::vector<int> keys;
+    for (int q = 0; q < universe; ++q) {
+        if (((mask % 64U) >> q) & 1U) { keys.push_back(q); }
+    }
+    return keys;
+}
+// keys of a range op, cut so that the set never needs more than `cap` keys; random-access sources never longer than `cap`
+auto fit_keys(Model const& base, std::vector<int> const& keys, bool random_access, std::size_t cap, bool& had_dup) -> std::vector<int>
+{
+    std::set<int> u(base.begin(), base.end());
+    std::vector<int> out;
+    for (auto q : keys) {
+        if (random_access && out.size() == cap) { break; }
+        if (u.count(q) == 0 && u.size() == cap) { break; }
+        had_dup |= u.count(q) != 0;
+        u.insert(q);
+        out.push_back(q);
+    }
+    return out;
+}
+auto has_dups(std::vector<int> const& keys) -> bool { return std::set<int>(keys.begin(), keys.end()).size() != keys.size(); }
 
 enum Code : std::uint32_t {
     INSERT_CREF, INSERT_RREF, EMPLACE, INSERT_RANGE, ERASE_KEY, ERASE_ITER, ERASE_RANGE, CLEAR, SWAP_MEMBER, SWAP_FREE, COMPARE,
@@ -217,143 +294,230 @@ char const* const code_names[] = {"insert(const&)", "insert(&&)", "emplace", "in
     "compare", "copy-ctor+mutate copy", "copy-assign", "move-assign", "move-ctor", "self copy-assign", "ctor(first,last)", "observe", "insert(hint,const&)", "insert(hint,&&)", "emplace_hint",
     "erase(const_iterator)", "extract", "replace", "ctor(container)", "ctor(sorted_unique,...)", "erase_if"};
 
+// ------------------------------------------------------------------ what is observed on the etl set (filled by template code) ...
+enum Fn { F_FIND, F_FIND_C, F_CONTAINS, F_COUNT, F_LB, F_LB_C, F_UB, F_UB_C, F_ER1, F_ER2, F_ERC1, F_ERC2, NFN };
+char const* const fn_names[] = {"find", "find const", "contains", "count", "lower_bound", "lower_bound const", "upper_bound", "upper_bound const", "equal_range.first", "equal_range.second", "equal_range const .first",
+    "equal_range const .second"};
+struct Obs {
+    std::size_t size{0}, max_size{0};
+    bool empty{false};
+    int full{-1}; // -1: the container has no full()
+    long d_nc{0}, d_c{0}, d_cc{0};
+    bool content_read{false}, full_level{false};
+    KeySeq fwd_c, fwd_nc, fwd_cc, rev_c, rev_nc, rev_cc;
+    bool ascending{true};
+    int comp_desc{-1}; // -1: stateless comparator
+    int nkt{1};        // key types looked up: int, (long)
+    bool has_equal_range{false};
+    long lk[2][nkeys][NFN]{};
+};
+
+// ------------------------------------------------------------------ ... and how it is judged against std::set (no templates)
+auto judge(char const* name, Obs const& o, Model const& m, std::size_t cap) -> std::string
+{
+    auto const seq = seq_of(m);
+    if (o.size != m.size()) { return fmt("%s: size %zu%s%s, std::set has %zu %s", name, o.size, o.content_read ? " content " : "", o.content_read ? show_seq(o.fwd_c).c_str() : "", m.size(), show_seq(seq).c_str()); }
+    if (o.empty != m.empty()) { return fmt("%s: empty() wrong", name); }
+    if (o.max_size != cap) { return fmt("%s: max_size() != N", name); }
+    if (o.full != -1 && (o.full != 0) != (m.size() == cap)) { return fmt("%s: full() wrong", name); }
+    if (o.d_nc != static_cast<long>(m.size()) || o.d_c != o.d_nc || o.d_cc != o.d_nc) { return fmt("%s: end()-begin() != size()", name); }
+    if (!(o.fwd_c == seq)) { return fmt("%s: iterates %s, std::set iterates %s", name, show_seq(o.fwd_c).c_str(), show_seq(seq).c_str()); }
+    if (!o.full_level) { return ""; }
+    if (!(o.fwd_nc == seq) || !(o.fwd_cc == seq)) { return fmt("%s: begin()/cbegin() iteration differs from const begin()", name); }
+    if (!o.ascending) { return fmt("%s: not strictly ascending under its own key_comp()/value_comp(): %s", name, show_seq(o.fwd_c).c_str()); }
+    if (o.comp_desc != -1 && (o.comp_desc != 0) != m.key_comp().desc) { return fmt("%s: key_comp() orders %s, std::set's orders %s", name, o.comp_desc != 0 ? "descending" : "ascending", m.key_comp().desc ? "descending" : "ascending"); }
+    auto const rseq = reversed(seq);
+    if (!(o.rev_c == rseq)) { return fmt("%s: reverse iteration gives %s, expected %s", name, show_seq(o.rev_c).c_str(), show_seq(rseq).c_str()); }
+    if (!(o.rev_nc == rseq)) { return fmt("%s: non-const reverse iteration gives %s, expected %s", name, show_seq(o.rev_nc).c_str(), show_seq(rseq).c_str()); }
+    if (!(o.rev_cc == rseq)) { return fmt("%s: crbegin iteration gives %s, expected %s", name, show_seq(o.rev_cc).c_str(), show_seq(rseq).c_str()); }
+    for (int i = 0; i < nkeys; ++i) {
+        int const k   = i - 1;
+        auto mo       = [&](Model::const_iterator it) { return static_cast<long>(std::distance(m.begin(), it)); };
+        long const wf = mo(m.find(k)), wl = mo(m.lower_bound(k)), wu = mo(m.upper_bound(k)), wc = static_cast<long>(m.count(k));
+        long const want[NFN] = {wf, wf, wc, wc, wl, wl, wu, wu, wl, wu, wl, wu};
+        for (int t = 0; t < o.nkt; ++t) {
+            for (int f = 0; f < (o.has_equal_range ? NFN : F_ER1); ++f) {
+                long const got = o.lk[t][i][f];
+                if (got == want[f]) { continue; }
+                char const* kt = t == 0 ? "int" : "long";
+                if (f == F_CONTAINS) { return fmt("%s: contains(%s %d) is %s, std::set says %s", name, kt, k, got != 0 ? "true" : "false", wc != 0 ? "true" : "false"); }
+                if (f == F_COUNT) { return fmt("%s: count(%s %d) is %ld, std::set says %ld", name, kt, k, got, wc); }
+                return fmt("%s: %s(%s %d) gives offset %s, std::set gives %ld", name, fn_names[f], kt, k, show_off(got).c_str(), want[f]);
+            }
+        }
+    }
+    return "";
+}
+
+template <bool Flat, typename Set, typename K>
+inline auto look(Set& x, K const& k, long* out) -> void
+{
+    Set const& cx = x;
+    out[F_FIND]     = off(x.begin(), x.end(), x.find(k));
+    out[F_FIND_C]   = off(cx.begin(), cx.end(), cx.find(k));
+    out[F_CONTAINS] = cx.contains(k) ? 1 : 0;
+    out[F_COUNT]    = static_cast<long>(cx.count(k));
+    out[F_LB]       = off(x.begin(), x.end(), x.lower_bound(k));
+    out[F_LB_C]     = off(cx.begin(), cx.end(), cx.lower_bound(k));
+    out[F_UB]       = off(x.begin(), x.end(), x.upper_bound(k));
+    out[F_UB_C]     = off(cx.begin(), cx.end(), cx.upper_bound(k));
+    if constexpr (Flat) { // static_set::equal_range does not compile on this tree
+        auto r       = x.equal_range(k);
+        out[F_ER1]   = off(x.begin(), x.end(), r.first);
+        out[F_ER2]   = off(x.begin(), x.end(), r.second);
+        auto cr      = cx.equal_range(k);
+        out[F_ERC1]  = off(cx.begin(), cx.end(), cr.first);
+        out[F_ERC2]  = off(cx.begin(), cx.end(), cr.second);
+    }
+}
+
+// full = false: size + content only (the set an operation cannot have touched)
+template <std::size_t N, bool Flat, bool Transparent, bool Stateful, typename Set>
+auto observe(Set& x, bool full, Obs& o) -> void
+{
+    Set const& cx = x;
+    o.size        = cx.size();
+    o.empty       = cx.empty();
+    o.max_size    = cx.max_size();
+    if constexpr (!Flat) { o.full = cx.full() ? 1 : 0; }
+    o.d_nc         = static_cast<long>(x.end() - x.begin());
+    o.d_c          = static_cast<long>(cx.end() - cx.begin());
+    o.d_cc         = static_cast<long>(cx.cend() - cx.cbegin());
+    o.content_read = o.size <= N && o.d_c == static_cast<long>(o.size) && o.d_nc == o.d_c && o.d_cc == o.d_c;
+    o.full_level   = full;
+    if (!o.content_read) { return; }
+    for (auto it = cx.begin(); it != cx.end(); ++it) { o.fwd_c.push(*it); }
+    if (!full) { return; }
+    for (auto it = x.begin(); it != x.end(); ++it) { o.fwd_nc.push(*it); }
+    for (auto it = cx.cbegin(); it != cx.cend(); ++it) { o.fwd_cc.push(*it); }
+    for (auto r = cx.rbegin(); r != cx.rend() && !o.rev_c.overflow; ++r) { o.rev_c.push(*r); }
+    for (auto r = x.rbegin(); r != x.rend() && !o.rev_nc.overflow; ++r) { o.rev_nc.push(*r); }
+    for (auto r = cx.crbegin(); r != cx.crend() && !o.rev_cc.overflow; ++r) { o.rev_cc.push(*r); }
+    auto const kc = cx.key_comp();
+    auto const vc = cx.value_comp();
+    for (std::size_t i = 0; i + 1 < o.fwd_c.n; ++i) {
+        int const p = o.fwd_c.v[i];
+        int const q = o.fwd_c.v[i + 1];
+        if (!kc(p, q) || kc(q, p) || !vc(p, q) || vc(q, p)) { o.ascending = false; }
+    }
+    if constexpr (Stateful) { o.comp_desc = kc.desc ? 1 : 0; }
+    o.has_equal_range = Flat;
+    o.nkt             = Transparent ? 2 : 1;
+    for (int i = 0; i < nkeys; ++i) {
+        int const k = i - 1;
+        look<Flat>(x, k, o.lk[0][i]);
+        if constexpr (Transparent) { look<Flat>(x, static_cast<long>(k), o.lk[1][i]); } // heterogeneous lookup
+    }
+}
+
 template <typename Cont>
 inline auto fill(Cont& c, std::vector<int> const& keys) -> void
 {
     for (auto k : keys) { c.push_back(k); }
 }
+template <typename Cont>
+inline auto snapshot(Cont const& c, std::size_t cap) -> KeySeq
+{
+    KeySeq s;
+    if (c.size() <= cap) {
+        for (auto it = c.begin(); it != c.end(); ++it) { s.push(*it); }
+    } else {
+        s.overflow = true;
+    }
+    return s;
+}
+
+struct Flags {
+    bool nt_dup = false, nt_full_new = false, nt_erase_succ = false;
+    bool f_full = false, f_full_dup = false, f_multi_erase = false, f_swap_nonempty = false, f_extract = false;
+};
+auto record(Flags const& f, bool flat, int stats, OpsCase const& k) -> void
+{
+    if (stats > 1) {
+        vf::label(flat ? "flat_set.hist.duplicate_insert" : "static_set.hist.duplicate_insert", f.nt_dup);
+        vf::label(flat ? "flat_set.hist.reached_full" : "static_set.hist.reached_full", f.f_full);
+        vf::label(flat ? "flat_set.hist.duplicate_insert_while_full" : "static_set.hist.duplicate_insert_while_full", f.f_full_dup);
+        vf::label(flat ? "flat_set.hist.erase_absent_key_with_successor" : "static_set.hist.erase_absent_key_with_successor", f.nt_erase_succ);
+        vf::label(flat ? "flat_set.hist.range_erase_of_2_or_more" : "static_set.hist.range_erase_of_2_or_more", f.f_multi_erase);
+        vf::label(flat ? "flat_set.hist.swap_of_two_non_empty" : "static_set.hist.swap_of_two_non_empty", f.f_swap_nonempty);
+        if (flat) {
+            vf::label("flat_set.hist.extract_non_empty", f.f_extract);
+        } else {
+            vf::label("static_set.hist.new_key_into_full_set", f.nt_full_new);
+        }
+    }
+    bool const nt = f.nt_dup || f.nt_full_new || f.nt_erase_succ;
+    if (stats == 2 && nt) { vf::nontrivial(vf::digest(k)); }
+    if (stats == 1 && nt) { vf::nontrivial_count(); } // enumerations: no repetition, counted directly
+}
+
+// judges the result of a single-key insert and applies it to the model
+auto judge_insert(char const* what, Model& mx, int key, std::size_t cap, bool flat, bool inserted, long got, Flags& fl) -> std::string
+{
+    bool const present = mx.count(key) != 0;
+    bool const full    = mx.size() == cap;
+    fl.nt_dup |= present;
+    fl.f_full_dup |= present && full;
+    if (!flat && full && !present) {
+        fl.nt_full_new = true; // static_set: failure must be reported and the set left unchanged (the model is left unchanged)
+        if (inserted) { return fmt("%s of the new key %d into a full set reported inserted=true", what, key); }
+        return "";
+    }
+    auto [mit, mins] = mx.insert(key);
+    long const want  = static_cast<long>(std::distance(mx.begin(), mit));
+    if (inserted != mins) { return fmt("%s of key %d returned inserted=%s, std::set %s", what, key, inserted ? "true" : "false", mins ? "true" : "false"); }
+    if (got != want) { return fmt("%s of key %d (inserted=%s) returned iterator offset %s, std::set %ld", what, key, mins ? "true" : "false", show_off(got).c_str(), want); }
+    return "";
+}
+auto judge_relations(bool const got[6], Model const& mx, Model const& my) -> std::string
+{
+    bool const want[6]    = {mx == my, mx != my, mx < my, mx <= my, mx > my, mx >= my};
+    char const* const n[] = {"==", "!=", "<", "<=", ">", ">="};
+    for (int i = 0; i < 6; ++i) {
+        if (got[i] != want[i]) { return fmt("operator%s is %s, std::set says %s", n[i], got[i] ? "true" : "false", want[i] ? "true" : "false"); }
+    }
+    return "";
+}
 
 // ------------------------------------------------------------------ the lock-step runner
 template <typename SetT, typename CompT, std::size_t Cap, bool Flat>
 struct Runner {
-    using Set                         = SetT;
-    using Comp                        = CompT;
-    using SComp                       = typename StdComp<Comp>::type;
-    using Model                       = std::set<int, SComp>;
-    static constexpr std::size_t N    = Cap;
-    static constexpr bool flat        = Flat;
-    static constexpr bool transparent = etl::detail::is_transparent_v<Comp>;
-    static constexpr bool stateful    = std::is_same_v<Comp, DirComp>;
+    using Set                             = SetT;
+    using Comp                            = CompT;
+    static constexpr std::size_t N        = Cap;
+    static constexpr bool flat            = Flat;
+    static constexpr bool transparent     = etl::detail::is_transparent_v<Comp>;
+    static constexpr bool stateful        = std::is_same_v<Comp, DirComp>;
+    static constexpr bool desc            = descending_v<Comp>;
     static constexpr std::uint32_t ncodes = Flat ? NCODES_FLAT : NCODES_STATIC;
 
-    static auto make_set(bool desc) -> Set
+    // stateful comparator: A ascending, B descending; otherwise both sets order as Comp does
+    static auto make_set(bool second) -> Set
     {
         if constexpr (stateful) {
-            return Set(DirComp{desc});
+            return Set(DirComp{second});
         } else {
-            (void)desc;
+            (void)second;
             return Set{};
         }
     }
-    static auto make_model(bool desc) -> Model
+    static auto make_model(bool second) -> Model { return Model(DirComp{stateful ? second : desc}); }
+    static auto default_comp() -> DirComp { return DirComp{stateful ? false : desc}; } // what a value-initialised Comp orders like
+
+    static auto compare(char const* name, Set& x, Model const& m, bool full = true) -> std::string
     {
-        if constexpr (stateful) {
-            return Model(DirComp{desc});
-        } else {
-            (void)desc;
-            return Model{};
-        }
+        Obs o;
+        observe<N, Flat, transparent, stateful>(x, full, o);
+        return judge(name, o, m, N);
     }
 
-    // every lookup answer for one key (of type K), const and non-const overloads
-    template <typename K>
-    static auto lookups(char const* name, char const* ktype, Set& x, Model const& m, K const& k, int kv) -> std::string
-    {
-        Set const& cx = x;
-        auto mo       = [&](auto it) { return static_cast<long>(std::distance(m.begin(), it)); };
-        auto bad      = [&](char const* fn, long got, long want) {
-            return std::string(name) + ": " + fn + "(" + ktype + " " + std::to_string(kv) + ") gives offset " + show_off(got) + ", std::set gives " + std::to_string(want);
-        };
-        long const wf = mo(m.find(k)), wl = mo(m.lower_bound(k)), wu = mo(m.upper_bound(k));
-        if (auto o = off(x.begin(), x.end(), x.find(k)); o != wf) { return bad("find", o, wf); }
-        if (auto o = off(cx.begin(), cx.end(), cx.find(k)); o != wf) { return bad("find const", o, wf); }
-        if (cx.contains(k) != (m.count(k) != 0)) { return std::string(name) + ": contains(" + ktype + " " + std::to_string(kv) + ") is " + (cx.contains(k) ? "true" : "false") + ", std::set says " + (m.count(k) != 0 ? "true" : "false"); }
-        if (static_cast<std::size_t>(cx.count(k)) != m.count(k)) { return std::string(name) + ": count(" + ktype + " " + std::to_string(kv) + ") is " + std::to_string(cx.count(k)) + ", std::set says " + std::to_string(m.count(k)); }
-        if (auto o = off(x.begin(), x.end(), x.lower_bound(k)); o != wl) { return bad("lower_bound", o, wl); }
-        if (auto o = off(cx.begin(), cx.end(), cx.lower_bound(k)); o != wl) { return bad("lower_bound const", o, wl); }
-        if (auto o = off(x.begin(), x.end(), x.upper_bound(k)); o != wu) { return bad("upper_bound", o, wu); }
-        if (auto o = off(cx.begin(), cx.end(), cx.upper_bound(k)); o != wu) { return bad("upper_bound const", o, wu); }
-        if constexpr (flat) { // static_set::equal_range does not compile on this tree
-            auto r = x.equal_range(k);
-            if (auto o = off(x.begin(), x.end(), r.first); o != wl) { return bad("equal_range.first", o, wl); }
-            if (auto o = off(x.begin(), x.end(), r.second); o != wu) { return bad("equal_range.second", o, wu); }
-            auto cr = cx.equal_range(k);
-            if (auto o = off(cx.begin(), cx.end(), cr.first); o != wl) { return bad("equal_range const .first", o, wl); }
-            if (auto o = off(cx.begin(), cx.end(), cr.second); o != wu) { return bad("equal_range const .second", o, wu); }
-        }
-        return "";
-    }
-
-    static auto compare(char const* name, Set& x, Model const& m) -> std::string
-    {
-        Set const& cx = x;
-        std::vector<int> const seq(m.begin(), m.end());
-        if (cx.size() != m.size()) {
-            std::string got = cx.size() <= N ? " content " + show_seq(cx) : std::string();
-            return std::string(name) + ": size " + std::to_string(cx.size()) + got + ", std::set has " + std::to_string(m.size()) + " " + show_seq(seq);
-        }
-        if (cx.empty() != m.empty()) { return std::string(name) + ": empty() wrong"; }
-        if (cx.max_size() != N) { return std::string(name) + ": max_size() != N"; }
-        if constexpr (!flat) {
-            if (cx.full() != (m.size() == N)) { return std::string(name) + ": full() wrong"; }
-        }
-        if (static_cast<std::size_t>(x.end() - x.begin()) != m.size() || static_cast<std::size_t>(cx.end() - cx.begin()) != m.size() || static_cast<std::size_t>(cx.cend() - cx.cbegin()) != m.size()) {
-            return std::string(name) + ": end()-begin() != size()";
-        }
-        if (!std::equal(cx.begin(), cx.end(), seq.begin())) { return std::string(name) + ": iterates " + show_seq(cx) + ", std::set iterates " + show_seq(seq); }
-        if (!std::equal(x.begin(), x.end(), seq.begin()) || !std::equal(cx.cbegin(), cx.cend(), seq.begin())) { return std::string(name) + ": begin()/cbegin() iteration differs from const begin()"; }
-        // invariant: strictly ascending under the container's own comparator (and under the oracle's)
-        {
-            auto kc = cx.key_comp();
-            auto vc = cx.value_comp();
-            auto mc = m.key_comp();
-            for (std::size_t i = 0; i + 1 < seq.size(); ++i) {
-                int const p = cx.begin()[i];
-                int const q = cx.begin()[i + 1];
-                if (!kc(p, q) || kc(q, p) || !vc(p, q) || vc(q, p) || !mc(p, q)) { return std::string(name) + ": not strictly ascending under the comparator: " + show_seq(cx); }
-            }
-            if constexpr (stateful) {
-                if (kc.desc != mc.desc) { return std::string(name) + ": key_comp() direction is " + (kc.desc ? "descending" : "ascending") + ", std::set's is " + (mc.desc ? "descending" : "ascending"); }
-            }
-        }
-        // reverse iteration
-        {
-            std::size_t i = seq.size();
-            for (auto r = cx.rbegin(); r != cx.rend(); ++r) {
-                if (i == 0) { return std::string(name) + ": reverse iteration longer than size()"; }
-                --i;
-                if (*r != seq[i]) { return std::string(name) + ": reverse iteration differs at " + std::to_string(i); }
-            }
-            if (i != 0) { return std::string(name) + ": reverse iteration shorter than size()"; }
-            i = seq.size();
-            for (auto r = x.rbegin(); r != x.rend(); ++r) {
-                if (i == 0) { return std::string(name) + ": non-const reverse iteration longer than size()"; }
-                --i;
-                if (*r != seq[i]) { return std::string(name) + ": non-const reverse iteration differs at " + std::to_string(i); }
-            }
-            i = seq.size();
-            for (auto r = cx.crbegin(); r != cx.crend(); ++r) {
-                if (i == 0) { return std::string(name) + ": crbegin iteration longer than size()"; }
-                --i;
-                if (*r != seq[i]) { return std::string(name) + ": crbegin iteration differs at " + std::to_string(i); }
-            }
-        }
-        // every lookup, keys just outside the universe included
-        for (int k = -1; k <= universe; ++k) {
-            if (auto e = lookups(name, "int", x, m, k, k); !e.empty()) { return e; }
-            if constexpr (transparent) {
-                if (auto e = lookups(name, "long", x, m, static_cast<long>(k), k); !e.empty()) { return e; }
-                if (auto e = lookups(name, "HKey", x, m, HKey{k}, k); !e.empty()) { return e; }
-            }
-        }
-        return "";
-    }
-
-    static auto run(OpsCase const& k, int stats) -> std::string
+    // ops with index < check_from are applied (return values still checked) but the sets are not compared after them:
+    // the enumerators use it for prefixes that another enumerated case checks completely
+    static auto run(OpsCase const& k, int stats, std::size_t check_from) -> std::string
     {
         std::string err;
-        bool nt_dup = false, nt_full_new = false, nt_erase_succ = false;
-        bool f_full = false, f_full_dup = false, f_multi_erase = false, f_swap_nonempty = false, f_range_dup = false, f_extract = false;
+        std::size_t op_index = 0;
+        Flags fl;
         g_adapter_overflow     = false;
         vf::it::g_out_of_range = false;
         struct Sandwich {
@@ -365,14 +529,14 @@ struct Runner {
         } sw{0xA5A5A5A5A5A5A5A5ULL, make_set(false), 0x5A5A5A5A5A5A5A5AULL, make_set(true), 0xC3C3C3C3C3C3C3C3ULL};
         Model ma = make_model(false), mb = make_model(true);
         for (auto const& op : k.ops) {
-            bool const tb = (op.c & 1U) != 0;
-            Set& x        = tb ? sw.b : sw.a;
-            Set& y        = tb ? sw.a : sw.b;
-            Model& mx     = tb ? mb : ma;
-            Model& my     = tb ? ma : mb;
+            bool const tb     = (op.c & 1U) != 0;
+            Set& x            = tb ? sw.b : sw.a;
+            Set& y            = tb ? sw.a : sw.b;
+            Model& mx         = tb ? mb : ma;
+            Model& my         = tb ? ma : mb;
             auto const stride = (op.c >> 1) % 6U;
-            int key       = static_cast<int>(op.a % 6U);
-            auto code     = op.code % ncodes;
+            int key           = static_cast<int>(op.a % 6U);
+            auto code         = op.code % ncodes;
             // ---- re-map what is impossible / not askable in the current state
             if (mx.empty() && (code == ERASE_ITER || code == ERASE_CONST_ITER)) { code = INSERT_CREF; }
             bool const is_single_insert = code == INSERT_CREF || code == INSERT_RREF || code == EMPLACE || code == INSERT_HINT_CREF || code == INSERT_HINT_RREF || code == EMPLACE_HINT;
@@ -381,65 +545,31 @@ struct Runner {
                 key = *std::next(mx.begin(), static_cast<std::ptrdiff_t>(op.a % N));
             }
             if (stats > 1) { vf::count((std::string("op.") + code_names[code]).c_str()); }
-
-            auto check_insert = [&](auto const& r, char const* what) {
-                bool const present = mx.count(key) != 0;
-                bool const full    = mx.size() == N;
-                nt_dup |= present;
-                f_full_dup |= present && full;
-                if (!flat && full && !present) {
-                    nt_full_new = true; // static_set: failure must be reported, set unchanged (compare() below sees the unchanged model)
-                    if (r.second) { err = std::string(what) + " of the new key " + std::to_string(key) + " into a full set reported inserted=true"; }
-                    return;
-                }
-                auto [mit, mins] = mx.insert(key);
-                long const want  = static_cast<long>(std::distance(mx.begin(), mit));
-                long const got   = off(x.begin(), x.end(), r.first);
-                if (static_cast<bool>(r.second) != mins) {
-                    err = std::string(what) + " of key " + std::to_string(key) + " returned inserted=" + (r.second ? "true" : "false") + ", std::set " + (mins ? "true" : "false");
-                } else if (got != want) {
-                    err = std::string(what) + " of key " + std::to_string(key) + " (inserted=" + (mins ? "true" : "false") + ") returned iterator offset " + show_off(got) + ", std::set " + std::to_string(want);
-                }
-            };
-            // keys of a range op, cut so that the set never needs more than N keys; random-access sources never longer than N
-            bool had_dup  = false;
-            auto fit_keys = [&](Model const& base, std::vector<int> keys, bool random_access) {
-                std::set<int> u(base.begin(), base.end());
-                std::vector<int> out;
-                for (auto q : keys) {
-                    if (random_access && out.size() == N) { break; }
-                    if (u.count(q) == 0 && u.size() == N) { break; }
-                    had_dup |= u.count(q) != 0;
-                    u.insert(q);
-                    out.push_back(q);
-                }
-                return out;
-            };
+            bool had_dup = false;
 
             switch (code) {
             case INSERT_CREF: {
                 int const v = key;
                 auto r      = x.insert(v);
-                check_insert(r, "insert(const&)");
+                err         = judge_insert("insert(const&)", mx, key, N, flat, r.second, off(x.begin(), x.end(), r.first), fl);
                 break;
             }
             case INSERT_RREF: {
                 int v  = key;
                 auto r = x.insert(std::move(v));
-                check_insert(r, "insert(&&)");
+                err    = judge_insert("insert(&&)", mx, key, N, flat, r.second, off(x.begin(), x.end(), r.first), fl);
                 break;
             }
             case EMPLACE: {
                 auto r = x.emplace(key);
-                check_insert(r, "emplace");
+                err    = judge_insert("emplace", mx, key, N, flat, r.second, off(x.begin(), x.end(), r.first), fl);
                 break;
             }
             case INSERT_RANGE: {
                 bool const ra = ((op.b / 5U) % 2U) == 0;
-                auto keys     = fit_keys(mx, range_keys(op.a, stride, op.b % 5U), false);
-                nt_dup |= had_dup;
-                f_range_dup |= had_dup;
-                int src[4]       = {0, 0, 0, 0};
+                auto keys     = fit_keys(mx, range_keys(op.a, stride, op.b % 5U), false, N, had_dup);
+                fl.nt_dup |= had_dup;
+                int src[4] = {0, 0, 0, 0};
                 std::copy(keys.begin(), keys.end(), src);
                 int const* f = src;
                 if (ra) {
@@ -454,17 +584,17 @@ struct Runner {
             }
             case ERASE_KEY: {
                 bool const absent = mx.count(key) == 0;
-                nt_erase_succ |= absent && mx.upper_bound(key) != mx.end();
+                fl.nt_erase_succ |= absent && mx.upper_bound(key) != mx.end();
                 auto n = x.erase(key);
                 auto e = mx.erase(key);
-                if (static_cast<std::size_t>(n) != e) { err = "erase(key " + std::to_string(key) + ") returned " + std::to_string(n) + ", std::set " + std::to_string(e); }
+                if (static_cast<std::size_t>(n) != e) { err = fmt("erase(key %d) returned %zu, std::set %zu", key, static_cast<std::size_t>(n), e); }
                 break;
             }
             case ERASE_ITER: {
                 auto p  = static_cast<std::ptrdiff_t>(op.a % mx.size());
                 auto it = x.erase(x.begin() + p);
                 mx.erase(std::next(mx.begin(), p));
-                if (auto o = off(x.begin(), x.end(), it); o != p) { err = "erase(iterator at " + std::to_string(p) + ") returned iterator offset " + show_off(o) + ", expected " + std::to_string(p); }
+                if (auto o = off(x.begin(), x.end(), it); o != p) { err = fmt("erase(iterator at %td) returned iterator offset %s, expected %td", p, show_off(o).c_str(), p); }
                 break;
             }
             case ERASE_CONST_ITER: {
@@ -472,14 +602,14 @@ struct Runner {
                     auto p  = static_cast<std::ptrdiff_t>(op.a % mx.size());
                     auto it = x.erase(x.cbegin() + p);
                     mx.erase(std::next(mx.begin(), p));
-                    if (auto o = off(x.begin(), x.end(), it); o != p) { err = "erase(const_iterator at " + std::to_string(p) + ") returned iterator offset " + show_off(o) + ", expected " + std::to_string(p); }
+                    if (auto o = off(x.begin(), x.end(), it); o != p) { err = fmt("erase(const_iterator at %td) returned iterator offset %s, expected %td", p, show_off(o).c_str(), p); }
                 }
                 break;
             }
             case ERASE_RANGE: {
                 auto f = static_cast<std::ptrdiff_t>(op.a % (mx.size() + 1));
                 auto l = f + static_cast<std::ptrdiff_t>(pick(op.b, mx.size() - static_cast<std::size_t>(f)));
-                f_multi_erase |= (l - f) >= 2;
+                fl.f_multi_erase |= (l - f) >= 2;
                 long o = 0;
                 if constexpr (flat) {
                     auto it = x.erase(x.cbegin() + f, x.cbegin() + l);
@@ -489,7 +619,7 @@ struct Runner {
                     o       = off(x.begin(), x.end(), it);
                 }
                 mx.erase(std::next(mx.begin(), f), std::next(mx.begin(), l));
-                if (o != f) { err = "erase(first " + std::to_string(f) + ", last " + std::to_string(l) + ") returned iterator offset " + show_off(o) + ", expected " + std::to_string(f); }
+                if (o != f) { err = fmt("erase(first %td, last %td) returned iterator offset %s, expected %td", f, l, show_off(o).c_str(), f); }
                 break;
             }
             case CLEAR: {
@@ -498,28 +628,24 @@ struct Runner {
                 break;
             }
             case SWAP_MEMBER: {
-                f_swap_nonempty |= !mx.empty() && !my.empty();
+                fl.f_swap_nonempty |= !mx.empty() && !my.empty();
                 x.swap(y);
                 mx.swap(my);
                 break;
             }
             case SWAP_FREE: {
-                f_swap_nonempty |= !mx.empty() && !my.empty();
+                fl.f_swap_nonempty |= !mx.empty() && !my.empty();
                 using etl::swap;
                 swap(x, y);
                 mx.swap(my);
                 break;
             }
             case COMPARE: {
-                Set const& cx = x;
-                Set const& cy = y;
-                if ((cx == cy) != (mx == my)) { err = "operator== differs from std::set"; }
-                if ((cx != cy) != (mx != my)) { err = "operator!= differs from std::set"; }
-                if ((cx < cy) != (mx < my)) { err = "operator< differs from std::set"; }
-                if ((cx <= cy) != (mx <= my)) { err = "operator<= differs from std::set"; }
-                if ((cx > cy) != (mx > my)) { err = "operator> differs from std::set"; }
-                if ((cx >= cy) != (mx >= my)) { err = "operator>= differs from std::set"; }
-                if (!(cx == cx) || (cx != cx) || (cx < cx) || !(cx <= cx)) { err = "relational operators not reflexive"; }
+                Set const& cx     = x;
+                Set const& cy     = y;
+                bool const got[6] = {cx == cy, cx != cy, cx < cy, cx <= cy, cx > cy, cx >= cy};
+                err               = judge_relations(got, mx, my);
+                if (err.empty() && (!(cx == cx) || (cx != cx) || (cx < cx) || !(cx <= cx))) { err = "relational operators not reflexive"; }
                 break;
             }
             case COPY_CTOR_MUTATE: {
@@ -562,9 +688,8 @@ struct Runner {
             }
             case CTOR_RANGE: {
                 bool const ra = ((op.b / 5U) % 2U) == 0;
-                auto keys     = fit_keys(Model(mx.key_comp()), range_keys(op.a, stride, op.b % 5U), ra);
-                nt_dup |= had_dup;
-                f_range_dup |= had_dup;
+                auto keys     = fit_keys(Model(mx.key_comp()), range_keys(op.a, stride, op.b % 5U), ra, N, had_dup);
+                fl.nt_dup |= had_dup;
                 int src[4] = {0, 0, 0, 0};
                 std::copy(keys.begin(), keys.end(), src);
                 int const* f = src;
@@ -598,8 +723,8 @@ struct Runner {
                 case EMPLACE_HINT: {
                     auto hp            = static_cast<std::ptrdiff_t>(op.b % (mx.size() + 1));
                     bool const present = mx.count(key) != 0;
-                    nt_dup |= present;
-                    f_full_dup |= present && mx.size() == N;
+                    fl.nt_dup |= present;
+                    fl.f_full_dup |= present && mx.size() == N;
                     typename Set::iterator it{};
                     if (code == INSERT_HINT_CREF) {
                         int const v = key;
@@ -612,16 +737,14 @@ struct Runner {
                     }
                     auto mit        = mx.insert(std::next(mx.begin(), hp), key);
                     long const want = static_cast<long>(std::distance(mx.begin(), mit));
-                    if (auto o = off(x.begin(), x.end(), it); o != want) { err = std::string(code_names[code]) + " of key " + std::to_string(key) + " returned iterator offset " + show_off(o) + ", std::set " + std::to_string(want); }
+                    if (auto o = off(x.begin(), x.end(), it); o != want) { err = fmt("%s of key %d returned iterator offset %s, std::set %ld", code_names[code], key, show_off(o).c_str(), want); }
                     break;
                 }
                 case EXTRACT: {
-                    f_extract |= !mx.empty();
-                    std::vector<int> const seq(mx.begin(), mx.end());
-                    Cont c = std::move(x).extract();
-                    if (c.size() != seq.size() || !std::equal(seq.begin(), seq.end(), c.begin())) {
-                        err = "extract() returned a container of size " + std::to_string(c.size()) + (c.size() <= N ? " " + show_seq(c) : std::string()) + ", the set held " + show_seq(seq);
-                    }
+                    fl.f_extract |= !mx.empty();
+                    auto const seq = seq_of(mx);
+                    Cont c         = std::move(x).extract();
+                    if (auto got = snapshot(c, N); !(got == seq)) { err = fmt("extract() returned a container of size %zu %s, the set held %s", static_cast<std::size_t>(c.size()), show_seq(got).c_str(), show_seq(seq).c_str()); }
                     if ((op.b & 1U) != 0) {
                         x.replace(std::move(c)); // round trip: the set is as before
                     } else {
@@ -630,10 +753,7 @@ struct Runner {
                     break;
                 }
                 case REPLACE: {
-                    std::vector<int> keys;
-                    for (int q = 0; q < universe; ++q) {
-                        if (((op.a % 64U) >> q) & 1U) { keys.push_back(q); }
-                    }
+                    auto keys = mask_keys(op.a);
                     std::sort(keys.begin(), keys.end(), mx.key_comp()); // sorted + unique under the set's comparator (replace() keeps it)
                     if (keys.size() > N) { keys.resize(N); }
                     Cont c;
@@ -645,22 +765,19 @@ struct Runner {
                 }
                 case CTOR_CONTAINER: {
                     auto keys = range_keys(op.a, stride, std::min<std::size_t>(op.b % 5U, N));
-                    nt_dup |= std::set<int>(keys.begin(), keys.end()).size() != keys.size();
+                    fl.nt_dup |= has_dups(keys);
                     Cont c;
                     fill(c, keys);
                     Set s(c); // sorts and removes duplicates; value-initialised comparator
-                    Model mc(keys.begin(), keys.end(), SComp{});
+                    Model mc(keys.begin(), keys.end(), default_comp());
                     if (auto e = compare("ctor(container)", s, mc); !e.empty()) { err = e; }
-                    if (c.size() != keys.size() || !std::equal(keys.begin(), keys.end(), c.begin())) { err = "ctor(container const&) modified its argument"; }
+                    if (!(snapshot(c, N) == seq_of(keys))) { err = "ctor(container const&) modified its argument"; }
                     y  = std::move(s);
                     my = mc;
                     break;
                 }
                 case CTOR_SORTED_UNIQUE: {
-                    std::vector<int> keys;
-                    for (int q = 0; q < universe; ++q) {
-                        if (((op.a % 64U) >> q) & 1U) { keys.push_back(q); }
-                    }
+                    auto keys = mask_keys(op.a);
                     if (keys.size() > N) { keys.resize(N); }
                     Set const& cx = x;
                     if ((op.b & 1U) != 0) {
@@ -676,11 +793,11 @@ struct Runner {
                         my = mc;
                     } else {
                         // (sorted_unique, container): value-initialised comparator
-                        std::sort(keys.begin(), keys.end(), SComp{});
+                        std::sort(keys.begin(), keys.end(), default_comp());
                         Cont c;
                         fill(c, keys);
                         Set s(etl::sorted_unique, std::move(c));
-                        Model mc(keys.begin(), keys.end(), SComp{});
+                        Model mc(keys.begin(), keys.end(), default_comp());
                         if (auto e = compare("ctor(sorted_unique,container)", s, mc); !e.empty()) { err = e; }
                         y  = std::move(s);
                         my = mc;
@@ -691,94 +808,79 @@ struct Runner {
                     int const par = static_cast<int>(op.a & 1U);
                     auto n        = etl::erase_if(x, [par](int v) { return (v & 1) == par; });
                     auto e        = std::erase_if(mx, [par](int v) { return (v & 1) == par; });
-                    if (static_cast<std::size_t>(n) != e) { err = "erase_if returned " + std::to_string(n) + ", std::erase_if " + std::to_string(e); }
+                    if (static_cast<std::size_t>(n) != e) { err = fmt("erase_if returned %zu, std::erase_if %zu", static_cast<std::size_t>(n), static_cast<std::size_t>(e)); }
                     break;
                 }
                 default: break;
                 }
             }
 
-            f_full |= mx.size() == N || my.size() == N;
-            if (err.empty()) { err = compare(tb ? "B" : "A", x, mx); }
-            if (err.empty()) { err = compare(tb ? "A" : "B", y, my); }
+            fl.f_full |= mx.size() == N || my.size() == N;
+            bool const checked   = op_index++ >= check_from;
+            bool const touches_y = code == SWAP_MEMBER || code == SWAP_FREE || code == COPY_ASSIGN || code == MOVE_ASSIGN || code == CTOR_RANGE || code == CTOR_CONTAINER || code == CTOR_SORTED_UNIQUE;
+            if (err.empty() && checked) { err = compare(tb ? "B" : "A", x, mx, true); }
+            if (err.empty() && checked) { err = compare(tb ? "A" : "B", y, my, touches_y); }
             if (err.empty() && (sw.pre != 0xA5A5A5A5A5A5A5A5ULL || sw.mid != 0x5A5A5A5A5A5A5A5AULL || sw.post != 0xC3C3C3C3C3C3C3C3ULL)) { err = "canary next to the set was overwritten"; }
             if (err.empty() && vf::it::g_out_of_range) { err = "an input iterator was advanced / dereferenced outside its range"; }
-            if (err.empty() && g_adapter_overflow) { err = "HARNESS: the backing adapter was asked to exceed its capacity (generator unsound, or the set inserted a duplicate)"; }
+            if (err.empty() && g_adapter_overflow) { err = "the backing container was asked to exceed its capacity although the set never needs more than N keys"; }
             if (!err.empty()) {
                 err = std::string("after ") + code_names[code] + ": " + err;
                 break;
             }
         }
-        if (stats > 1) {
-            vf::label(flat ? "flat_set.hist.duplicate_insert" : "static_set.hist.duplicate_insert", nt_dup);
-            vf::label(flat ? "flat_set.hist.reached_full" : "static_set.hist.reached_full", f_full);
-            vf::label(flat ? "flat_set.hist.duplicate_insert_while_full" : "static_set.hist.duplicate_insert_while_full", f_full_dup);
-            vf::label(flat ? "flat_set.hist.erase_absent_key_with_successor" : "static_set.hist.erase_absent_key_with_successor", nt_erase_succ);
-            vf::label(flat ? "flat_set.hist.range_erase_of_2_or_more" : "static_set.hist.range_erase_of_2_or_more", f_multi_erase);
-            vf::label(flat ? "flat_set.hist.swap_of_two_non_empty" : "static_set.hist.swap_of_two_non_empty", f_swap_nonempty);
-            if constexpr (flat) {
-                vf::label("flat_set.hist.extract_non_empty", f_extract);
-            } else {
-                vf::label("static_set.hist.new_key_into_full_set", nt_full_new);
-            }
-        }
-        bool const nt = nt_dup || nt_full_new || nt_erase_succ;
-        if (stats == 1 && nt) { vf::nontrivial(vf::digest(k)); }
-        if (stats == 2 && nt) { vf::nontrivial(vf::digest(k)); }
-        if (stats == 3 && nt) { vf::nontrivial_count(); } // enumerated histories: no repetition, counted directly
+        record(fl, flat, stats, k);
         return err;
     }
 };
 
 // ------------------------------------------------------------------ flat_multiset: construction only (that is all it has)
+[[maybe_unused]] auto judge_multi(char const* name, std::size_t size, bool empty, std::size_t max_size, long d_nc, long d_c, long d_cc, KeySeq const (&s)[6], bool weakly_ascending, std::vector<int> const& want) -> std::string
+{
+    auto const w = seq_of(want);
+    if (size != want.size()) { return fmt("%s: size %zu, std::multiset has %zu", name, size, want.size()); }
+    if (empty != want.empty()) { return fmt("%s: empty() wrong", name); }
+    if (max_size != 4) { return fmt("%s: max_size() != capacity of the container", name); }
+    if (d_nc != static_cast<long>(want.size()) || d_c != d_nc || d_cc != d_nc) { return fmt("%s: end()-begin() != size()", name); }
+    if (!(s[0] == w)) { return fmt("%s: iterates %s, std::multiset iterates %s", name, show_seq(s[0]).c_str(), show_seq(w).c_str()); }
+    if (!(s[1] == w) || !(s[2] == w)) { return fmt("%s: begin()/cbegin() iteration differs from const begin()", name); }
+    if (!weakly_ascending) { return fmt("%s: not weakly ascending under the comparator: %s", name, show_seq(s[0]).c_str()); }
+    auto const r = reversed(w);
+    if (!(s[3] == r) || !(s[4] == r) || !(s[5] == r)) { return fmt("%s: reverse iteration gives %s / %s / %s, expected %s", name, show_seq(s[3]).c_str(), show_seq(s[4]).c_str(), show_seq(s[5]).c_str(), show_seq(r).c_str()); }
+    return "";
+}
+
 template <typename Cont, typename CompT>
 struct MultiRunner {
-    using M     = etl::flat_multiset<int, Cont, CompT>;
-    using SComp = typename StdComp<CompT>::type;
+    using M = etl::flat_multiset<int, Cont, CompT>;
     static auto check(char const* name, M& m, std::vector<int> const& want) -> std::string
     {
         M const& cm = m;
-        if (cm.size() != want.size()) { return std::string(name) + ": size " + std::to_string(cm.size()) + ", std::multiset has " + std::to_string(want.size()); }
-        if (cm.empty() != want.empty()) { return std::string(name) + ": empty() wrong"; }
-        if (cm.max_size() != 4) { return std::string(name) + ": max_size() != capacity of the container"; }
-        if (static_cast<std::size_t>(cm.end() - cm.begin()) != want.size() || static_cast<std::size_t>(m.end() - m.begin()) != want.size() || static_cast<std::size_t>(cm.cend() - cm.cbegin()) != want.size()) {
-            return std::string(name) + ": end()-begin() != size()";
+        KeySeq s[6];
+        long const d_nc = static_cast<long>(m.end() - m.begin()), d_c = static_cast<long>(cm.end() - cm.begin()), d_cc = static_cast<long>(cm.cend() - cm.cbegin());
+        bool asc = true;
+        if (cm.size() <= 4 && d_c == static_cast<long>(cm.size()) && d_nc == d_c && d_cc == d_c) {
+            for (auto it = cm.begin(); it != cm.end(); ++it) { s[0].push(*it); }
+            for (auto it = m.begin(); it != m.end(); ++it) { s[1].push(*it); }
+            for (auto it = cm.cbegin(); it != cm.cend(); ++it) { s[2].push(*it); }
+            for (auto r = cm.rbegin(); r != cm.rend() && !s[3].overflow; ++r) { s[3].push(*r); }
+            for (auto r = m.rbegin(); r != m.rend() && !s[4].overflow; ++r) { s[4].push(*r); }
+            for (auto r = cm.crbegin(); r != cm.crend() && !s[5].overflow; ++r) { s[5].push(*r); }
+            CompT comp{};
+            for (std::size_t i = 0; i + 1 < s[0].n; ++i) {
+                if (comp(s[0].v[i + 1], s[0].v[i])) { asc = false; }
+            }
         }
-        if (!std::equal(want.begin(), want.end(), cm.begin())) { return std::string(name) + ": iterates " + show_seq(cm) + ", std::multiset iterates " + show_seq(want); }
-        if (!std::equal(want.begin(), want.end(), m.begin()) || !std::equal(want.begin(), want.end(), cm.cbegin())) { return std::string(name) + ": begin()/cbegin() iteration differs from const begin()"; }
-        CompT comp{};
-        for (std::size_t i = 0; i + 1 < want.size(); ++i) {
-            if (comp(cm.begin()[i + 1], cm.begin()[i])) { return std::string(name) + ": not weakly ascending under the comparator: " + show_seq(cm); }
-        }
-        std::size_t i = want.size();
-        for (auto r = cm.rbegin(); r != cm.rend(); ++r) {
-            if (i == 0) { return std::string(name) + ": reverse iteration longer than size()"; }
-            --i;
-            if (*r != want[i]) { return std::string(name) + ": reverse iteration differs at " + std::to_string(i); }
-        }
-        if (i != 0) { return std::string(name) + ": reverse iteration shorter than size()"; }
-        i = want.size();
-        for (auto r = m.rbegin(); r != m.rend(); ++r) {
-            if (i == 0) { return std::string(name) + ": non-const reverse iteration longer than size()"; }
-            --i;
-            if (*r != want[i]) { return std::string(name) + ": non-const reverse iteration differs at " + std::to_string(i); }
-        }
-        i = want.size();
-        for (auto r = cm.crbegin(); r != cm.crend(); ++r) {
-            if (i == 0) { return std::string(name) + ": crbegin iteration longer than size()"; }
-            --i;
-            if (*r != want[i]) { return std::string(name) + ": crbegin iteration differs at " + std::to_string(i); }
-        }
-        return "";
+        return judge_multi(name, cm.size(), cm.empty(), cm.max_size(), d_nc, d_c, d_cc, s, asc, want);
     }
-    static auto run(OpsCase const& k, int stats) -> std::string
+    static auto run(OpsCase const& k, int stats, std::size_t /*check_from*/) -> std::string
     {
         g_adapter_overflow = false;
         std::vector<int> keys;
         for (auto const& op : k.ops) {
             if (keys.size() < 4) { keys.push_back(static_cast<int>(op.a % 6U)); }
         }
-        std::multiset<int, SComp> oracle(keys.begin(), keys.end());
+        DirComp const dc{descending_v<CompT>};
+        std::multiset<int, DirComp> oracle(keys.begin(), keys.end(), dc);
         std::vector<int> const want(oracle.begin(), oracle.end());
         std::string err;
         {
@@ -786,7 +888,7 @@ struct MultiRunner {
             fill(c, keys);
             M m(c);
             err = check("flat_multiset(container)", m, want);
-            if (err.empty() && (c.size() != keys.size() || !std::equal(keys.begin(), keys.end(), c.begin()))) { err = "flat_multiset(container) modified the caller's container"; }
+            if (err.empty() && !(snapshot(c, 4) == seq_of(keys))) { err = "flat_multiset(container) modified the caller's container"; }
             if (err.empty()) {
                 M cp(m);
                 err = check("copy of flat_multiset", cp, want);
@@ -810,12 +912,12 @@ struct MultiRunner {
                 err = check("flat_multiset(comp)", m2, {});
             }
         }
-        if (err.empty() && g_adapter_overflow) { err = "HARNESS: adapter overflow"; }
-        bool const nt = std::set<int>(keys.begin(), keys.end()).size() != keys.size() || !std::is_sorted(keys.begin(), keys.end(), SComp{});
+        if (err.empty() && g_adapter_overflow) { err = "the backing container was asked to exceed its capacity"; }
+        bool const dups = has_dups(keys), unsorted = !std::is_sorted(keys.begin(), keys.end(), dc);
         if (stats > 0) {
-            vf::label("flat_multiset.input_has_duplicates", std::set<int>(keys.begin(), keys.end()).size() != keys.size());
-            vf::label("flat_multiset.input_unsorted", !std::is_sorted(keys.begin(), keys.end(), SComp{}));
-            if (nt) { vf::nontrivial_count(); }
+            vf::label("flat_multiset.input_has_duplicates", dups);
+            vf::label("flat_multiset.input_unsorted", unsorted);
+            if (dups || unsorted) { vf::nontrivial_count(); }
         }
         return err;
     }
@@ -824,7 +926,7 @@ struct MultiRunner {
 // ------------------------------------------------------------------ configuration table
 struct Config {
     char const* name;
-    std::string (*run)(OpsCase const&, int);
+    std::string (*run)(OpsCase const&, int, std::size_t);
     std::uint32_t ncodes;
     int kind; // 0 static_set, 1 flat_set, 2 flat_multiset
     std::size_t cap;
@@ -840,27 +942,37 @@ using AVec = IVec<int, N>;
 #define FA(N, C) Config{"flat_set<int,inplace_vector_adapter<int," #N ">," #C ">", &Runner<etl::flat_set<int, AVec<N>, C>, C, N, true>::run, NCODES_FLAT, 1, N}
 #define MS(CONT, CNAME, C) Config{"flat_multiset<int," CNAME "," #C ">", &MultiRunner<CONT, C>::run, 1, 2, 4}
 
-using less_int    = etl::less<int>;
-using greater_int = etl::greater<int>;
-using less_void   = etl::less<>;
+using less_int     = etl::less<int>;
+using greater_int  = etl::greater<int>;
+using less_void    = etl::less<>;
 using greater_void = etl::greater<>;
 
 Config const configs[] = {
 #if C09_PART == 0
-    SS(1, less_int), SS(3, less_int), SS(4, less_int), SS(1, greater_int), SS(3, greater_int), SS(4, greater_int), SS(1, less_void), SS(3, less_void), SS(4, less_void), SS(3, greater_void),
+    SS(1, less_int), SS(3, less_int), SS(4, less_int),
 #elif C09_PART == 1
-    FS(1, less_int), FS(3, less_int), FS(4, less_int), FS(1, greater_int), FS(3, greater_int), FS(4, greater_int), FS(1, less_void), FS(3, less_void), FS(4, less_void), FS(3, greater_void),
+    SS(1, greater_int), SS(3, greater_int), SS(4, greater_int),
+#elif C09_PART == 2
+    SS(1, less_void), SS(3, less_void), SS(4, less_void), SS(3, greater_void),
+#elif C09_PART == 3
+    FS(1, less_int), FS(3, less_int), FS(4, less_int),
+#elif C09_PART == 4
+    FS(1, greater_int), FS(3, greater_int), FS(4, greater_int),
+#elif C09_PART == 5
+    FS(1, less_void), FS(3, less_void), FS(4, less_void), FS(3, greater_void),
+#elif C09_PART == 6
+    FA(3, less_int), FA(4, greater_int), FA(3, less_void),
 #else
-    FA(3, less_int), FA(4, greater_int), FA(3, less_void), FS(3, DirComp), FA(4, DirComp),
+    FS(3, DirComp), FA(4, DirComp),
     MS(SVec<4>, "static_vector<int,4>", less_int), MS(SVec<4>, "static_vector<int,4>", greater_int), MS(SVec<4>, "static_vector<int,4>", less_void), MS(AVec<4>, "inplace_vector_adapter<int,4>", greater_void),
 #endif
 };
 constexpr std::uint32_t nconfigs = sizeof(configs) / sizeof(configs[0]);
 
-auto run_case(OpsCase const& k, int stats) -> std::string
+auto run_case(OpsCase const& k, int stats, std::size_t check_from = 0) -> std::string
 {
     auto const& cfg = configs[k.cfg % nconfigs];
-    auto d          = cfg.run(k, stats);
+    auto d          = cfg.run(k, stats, check_from);
     return d.empty() ? d : std::string(cfg.name) + ": " + d;
 }
 
@@ -884,15 +996,15 @@ struct ArgSpace {
     std::vector<std::uint32_t> as, bs, cs;
 };
 
-// every concrete argument of every op for a set of capacity `cap` (decoded modulo the current size, so the lists cover
-// every key 0..5, every position 0..size, every (first,last) pair, both targets, both source-iterator kinds)
+// every concrete argument of every op (decoded modulo the current size, so the lists cover every key 0..5, every
+// position 0..size, every (first,last) pair, both targets, both source-iterator kinds)
 auto concrete_ops(Config const& cfg) -> std::vector<RawOp>
 {
     std::vector<std::uint32_t> const keys{0, 1, 2, 3, 4, 5}, poss{0, 1, 2, 3, 4}, tgt{0, 1}, one{0};
-    std::vector<std::uint32_t> const lens{0, 1, 2, 3, 12, 20, 28};       // pick(): 0, 1, all, all-1, and explicit 1,2,3
-    std::vector<std::uint32_t> const seqs{0, 1, 7, 8, 14, 23, 86, 129, 215, 373, 1295}; // digit strings: repeats, ascending, descending, mixed
-    std::vector<std::uint32_t> const rlen{0, 1, 2, 3, 4, 6, 7, 8, 9};    // length 0..4, random-access source (0..4) / input iterators (5..9)
-    std::vector<std::uint32_t> const tgt_stride{0, 1, 2, 3, 4, 5};       // target x stride {0,1,2}
+    std::vector<std::uint32_t> const lens{0, 1, 2, 3, 12, 20, 28};     // pick(): 0, 1, all, all-1, and explicit 1,2,3
+    std::vector<std::uint32_t> const seqs{0, 8, 23, 129, 373, 1295};   // base-6 digit strings: 0000, 2100, 5300, 3330, 1241, 5555
+    std::vector<std::uint32_t> const rlen{0, 1, 2, 3, 4, 6, 7, 8, 9};  // length 0..4 from a random-access source (0..4) / from input iterators (5..9)
+    std::vector<std::uint32_t> const tgt_stride{0, 1, 2, 3};           // target x stride {0,1}
     std::vector<std::uint32_t> masks;
     for (std::uint32_t m = 0; m < 64; ++m) { masks.push_back(m); }
     std::vector<ArgSpace> sp{
@@ -902,8 +1014,8 @@ auto concrete_ops(Config const& cfg) -> std::vector<RawOp>
     };
     if (cfg.kind == 1) {
         std::vector<ArgSpace> fl{
-            {INSERT_HINT_CREF, keys, poss, tgt}, {INSERT_HINT_RREF, keys, poss, tgt}, {EMPLACE_HINT, keys, poss, tgt}, {ERASE_CONST_ITER, poss, one, tgt}, {EXTRACT, one, tgt, tgt}, {REPLACE, masks, one, tgt},
-            {CTOR_CONTAINER, seqs, poss, tgt_stride}, {CTOR_SORTED_UNIQUE, masks, tgt, tgt}, {ERASE_IF, tgt, one, tgt},
+            {INSERT_HINT_CREF, keys, poss, tgt}, {INSERT_HINT_RREF, keys, poss, one}, {EMPLACE_HINT, keys, poss, one}, {ERASE_CONST_ITER, poss, one, tgt}, {EXTRACT, one, tgt, tgt}, {REPLACE, masks, one, one},
+            {CTOR_CONTAINER, seqs, poss, tgt_stride}, {CTOR_SORTED_UNIQUE, masks, tgt, one}, {ERASE_IF, tgt, one, tgt},
         };
         sp.insert(sp.end(), fl.begin(), fl.end());
     }
@@ -918,25 +1030,25 @@ auto concrete_ops(Config const& cfg) -> std::vector<RawOp>
     return out;
 }
 
-// compact alphabet for the exhaustive histories
+// compact alphabet for the exhaustive histories (20 letters for static_set, 26 for flat_set; `reduced`: 12 / 16)
 auto history_alphabet(Config const& cfg, bool reduced) -> std::vector<RawOp>
 {
     std::vector<RawOp> a{
         {INSERT_CREF, 0, 0, 0}, {INSERT_CREF, 2, 0, 0}, {INSERT_RREF, 4, 0, 0}, {EMPLACE, 3, 0, 0}, {INSERT_CREF, 5, 0, 1}, // the last one targets B
-        {ERASE_KEY, 2, 0, 0}, {ERASE_KEY, 3, 0, 0}, {ERASE_KEY, 1, 0, 0}, {ERASE_ITER, 0, 0, 0}, {ERASE_RANGE, 0, 2, 0}, {ERASE_RANGE, 1, 2, 0},
-        {SWAP_MEMBER, 0, 0, 0}, {COPY_ASSIGN, 0, 0, 0},
+        {ERASE_KEY, 2, 0, 0}, {ERASE_KEY, 3, 0, 0}, {ERASE_KEY, 1, 0, 0}, {ERASE_ITER, 0, 0, 0}, {ERASE_RANGE, 0, 2, 0} /* all */, {ERASE_RANGE, 1, 2, 0} /* [1,end) */,
+        {SWAP_MEMBER, 0, 0, 0},
     };
     if (!reduced) {
         std::vector<RawOp> more{
-            {INSERT_RANGE, 8, 3, 0} /* keys 2 1 0 */, {INSERT_RANGE, 23, 7, 2} /* keys 5 4, input iterators */, {ERASE_ITER, 1, 0, 0}, {ERASE_RANGE, 0, 3, 0}, {CLEAR, 0, 0, 0}, {SWAP_FREE, 0, 0, 1}, {COMPARE, 0, 0, 0},
-            {MOVE_ASSIGN, 0, 0, 0}, {MOVE_CTOR, 0, 0, 0}, {COPY_CTOR_MUTATE, 1, 0, 0}, {CTOR_RANGE, 129, 3, 0} /* keys 3 3 3 */, {SELF_COPY_ASSIGN, 0, 0, 0},
+            {INSERT_RANGE, 8, 3, 0} /* keys 2 1 0 */, {ERASE_RANGE, 0, 3, 0} /* all but the last */, {CLEAR, 0, 0, 0}, {COMPARE, 0, 0, 0}, {COPY_ASSIGN, 0, 0, 0}, {MOVE_ASSIGN, 0, 0, 0},
+            {COPY_CTOR_MUTATE, 1, 0, 0}, {CTOR_RANGE, 129, 8, 0} /* keys 3 3 3 through input iterators */,
         };
         a.insert(a.end(), more.begin(), more.end());
     }
     if (cfg.kind == 1) {
-        std::vector<RawOp> fl{{INSERT_HINT_CREF, 1, 0, 0}, {EMPLACE_HINT, 4, 4, 0}, {EXTRACT, 0, 0, 0}, {EXTRACT, 0, 1, 0}, {REPLACE, 0x2A, 0, 0} /* keys 1 3 5 */};
+        std::vector<RawOp> fl{{INSERT_HINT_CREF, 1, 0, 0}, {EXTRACT, 0, 0, 0}, {EXTRACT, 0, 1, 0}, {REPLACE, 0x2A, 0, 0} /* keys 1 3 5 */};
         if (!reduced) {
-            std::vector<RawOp> more{{INSERT_HINT_RREF, 3, 1, 0}, {ERASE_CONST_ITER, 0, 0, 0}, {CTOR_CONTAINER, 86, 3, 0} /* keys 2 2 2 */, {CTOR_SORTED_UNIQUE, 0x15, 1, 0}, {ERASE_IF, 0, 0, 0}};
+            std::vector<RawOp> more{{EMPLACE_HINT, 4, 4, 0}, {ERASE_IF, 0, 0, 0}};
             fl.insert(fl.end(), more.begin(), more.end());
         }
         a.insert(a.end(), fl.begin(), fl.end());
@@ -953,30 +1065,32 @@ void enum_states_x_ops(vf::Ctx& c)
         auto const ops = concrete_ops(cfg);
         for (std::uint32_t mask = 0; mask < 64; ++mask) {
             if (static_cast<std::size_t>(__builtin_popcount(mask)) > cfg.cap) { continue; }
-            for (int order = 0; order < 2; ++order) {          // insertion order ascending / descending
-                for (int bfill = 0; bfill < 2; ++bfill) {      // the other set empty / {1,4} (cut to the capacity)
-                    std::vector<RawOp> prefix;
-                    for (int i = 0; i < universe; ++i) {
-                        int const q = order == 0 ? i : universe - 1 - i;
-                        if ((mask >> q) & 1U) { prefix.push_back(RawOp{INSERT_CREF, static_cast<std::uint32_t>(q), 0, 0}); }
-                    }
-                    if (bfill == 1) {
-                        prefix.push_back(RawOp{INSERT_CREF, 1, 0, 1});
-                        if (cfg.cap >= 2) { prefix.push_back(RawOp{INSERT_CREF, 4, 0, 1}); }
-                    }
-                    for (auto const& op : ops) {
-                        if (!c.mine(n++)) { continue; }
-                        OpsCase k;
-                        k.cfg = ci;
-                        k.ops = prefix;
-                        k.ops.push_back(op);
-                        vf::Flight<OpsCase> fl("state_x_op", k);
-                        vf::eval("state_x_op");
-                        auto d = run_case(k, 1);
-                        if (!d.empty()) {
-                            vf::mismatch("state_x_op", k, d);
-                            return;
-                        }
+            // variant 0: keys inserted ascending, other set empty; variant 1: keys inserted descending, other set {1,4} (cut to the capacity)
+            for (int variant = 0; variant < 2; ++variant) {
+                std::vector<RawOp> prefix;
+                for (int i = 0; i < universe; ++i) {
+                    int const q = variant == 0 ? i : universe - 1 - i;
+                    if ((mask >> q) & 1U) { prefix.push_back(RawOp{INSERT_CREF, static_cast<std::uint32_t>(q), 0, 0}); }
+                }
+                if (variant == 1) {
+                    prefix.push_back(RawOp{INSERT_CREF, 1, 0, 1});
+                    if (cfg.cap >= 2) { prefix.push_back(RawOp{INSERT_CREF, 4, 0, 1}); }
+                }
+                bool first = true;
+                for (auto const& op : ops) {
+                    bool const check_prefix = first; // the building prefix is compared completely once per state (by whichever shard runs its first op)
+                    first                   = false;
+                    if (!c.mine(n++)) { continue; }
+                    OpsCase k;
+                    k.cfg = ci;
+                    k.ops = prefix;
+                    k.ops.push_back(op);
+                    vf::Flight<OpsCase> fl("state_x_op", k);
+                    vf::eval("state_x_op");
+                    auto d = run_case(k, 1, check_prefix ? 0 : prefix.size());
+                    if (!d.empty()) {
+                        vf::mismatch("state_x_op", k, d);
+                        return;
                     }
                 }
             }
@@ -991,11 +1105,21 @@ void enum_short_histories(vf::Ctx& c)
         if (cfg.kind == 2) { continue; }
         bool failed = false;
         auto go     = [&](std::vector<RawOp> const& alpha, int depth) {
+            auto const& z = alpha[0];
             vf::enum_histories(ci, alpha, depth, [&](OpsCase const& k) {
                 if (failed) { return; }
+                // every proper prefix of this history is also the prefix of the history that continues it with alpha[0]s:
+                // the sets are compared after op i only in the one history where everything behind i is alpha[0], so each
+                // distinct prefix is compared completely exactly once over the whole enumeration
+                std::size_t tail = 0;
+                while (tail + 1 < k.ops.size()) {
+                    auto const& o = k.ops[k.ops.size() - 1 - tail];
+                    if (o.code != z.code || o.a != z.a || o.b != z.b || o.c != z.c) { break; }
+                    ++tail;
+                }
                 vf::Flight<OpsCase> fl("enum_histories", k);
                 vf::eval("enum_histories");
-                auto d = run_case(k, 3);
+                auto d = run_case(k, 1, k.ops.size() - 1 - tail);
                 if (!d.empty()) {
                     failed = true;
                     vf::mismatch("enum_histories", k, d);
@@ -1046,7 +1170,7 @@ void vf_run(vf::Ctx& c)
     enum_states_x_ops(c);
     enum_short_histories(c);
     // E1: random histories of <= 30 ops, every configuration (each shard has its own seed)
-    int const per_cfg = c.thorough() ? 4000 : 600;
+    int const per_cfg = c.thorough() ? 25000 : 3000;
     for (std::uint32_t ci = 0; ci < nconfigs; ++ci) {
         auto const& cfg = configs[ci];
         if (cfg.kind == 2) { continue; }
